@@ -19,7 +19,7 @@
 (* answer), thr (orphaned_threshold_reached), closed, defunct, signaled.      *)
 (*                                                                            *)
 (* Threads.  Loop thread (atomic w.r.t. itself): Respond, Timeout, ConnFails. *)
-(* Client threads: BorrowStart | BorrowTake | Send, anything may fall in      *)
+(* Client threads: BorrowStart | BorrowMark | BorrowTake | Send, anything in   *)
 (* between.  Executor task _replace: ReplaceCheck | ReplaceOpen |             *)
 (* ReplacePublish | ReplaceRetire, delayed arbitrarily.  A thread calling     *)
 (* shutdown(): ShutdownMark | ShutdownCloseCur | ShutdownCloseTrash.  One     *)
@@ -49,7 +49,7 @@ VARIABLES inflight, orph, reg, owed, thr, closed, defunct, signaled,     \* per 
           rep,        \* the _replace task: [ph, old, new], ph: none, queued, open, use (only with Ks), publish, retire
           opened,     \* connections opened so far (they are 1..opened)
           fails, cfails,
-          st,         \* per request: new, picked, borrowed, sent, done, timedout, errored, refused, nohost
+          st,         \* per request: new, marking, picked, borrowed, sent, done, timedout, errored, refused, nohost
           on,         \* per request: the connection it picked / borrowed (0 = none)
           act
 cvars == <<inflight, orph, reg, owed, thr, closed, defunct, signaled>>
@@ -117,20 +117,34 @@ SetPool(e, c) ==
     /\ shutdown' = e.shutdown /\ sd' = e.sd
 
 -----------------------------------------------------------------------------
-(* borrow_connection up to its first `with conn.lock`: _get_connection, and   *)
-(* the "orphaned threshold reached -> submit _replace once" branch            *)
+(* borrow_connection, its lock-free beginning (423-424): _get_connection reads *)
+(* _connection into a local, orphaned_threshold_reached is read from it; a     *)
+(* borrower that finds the threshold reached goes on to the pool lock          *)
 BorrowStart(r) ==
     /\ st[r] = "new"
     /\ IF shutdown \/ cur = 0
        THEN /\ st' = [st EXCEPT ![r] = "nohost"]
-            /\ UNCHANGED <<on, replacing, rep>>
-       ELSE /\ st' = [st EXCEPT ![r] = "picked"]
+            /\ UNCHANGED on
+       ELSE /\ st' = [st EXCEPT ![r] = IF thr[cur] THEN "marking" ELSE "picked"]
             /\ on' = [on EXCEPT ![r] = cur]
-            /\ IF thr[cur] /\ ~replacing
-               THEN replacing' = TRUE /\ rep' = Queued(cur)
-               ELSE UNCHANGED <<replacing, rep>>
     /\ act' = A("BorrowStart", r, 0, FALSE)
-    /\ UNCHANGED <<cvars, cur, trash, shutdown, sd, opened, fails, cfails>>
+    /\ UNCHANGED <<cvars, pvars>>
+
+(* under the pool lock (425-432): test-and-set _is_replacing, submit _replace  *)
+(* for the connection read above.  Anything may have happened since the read,  *)
+(* a complete replacement of that connection included.                         *)
+(* INTENDED (C12): the task is submitted only while the connection read is     *)
+(* still the pool's current one; the pinned code submits it again for a        *)
+(* connection that was already replaced, and the second replacement overwrites *)
+(* (and drops, open) the connection the first one published.                   *)
+BorrowMark(r) ==
+    /\ st[r] = "marking"
+    /\ IF ~replacing /\ on[r] = cur
+       THEN replacing' = TRUE /\ rep' = Queued(on[r])
+       ELSE UNCHANGED <<replacing, rep>>
+    /\ st' = [st EXCEPT ![r] = "picked"]
+    /\ act' = A("BorrowMark", r, on[r], FALSE)
+    /\ UNCHANGED <<cvars, cur, trash, shutdown, sd, opened, fails, cfails, on>>
 
 CanTake(c) == ~(thr[c] /\ closed[c]) /\ inflight[c] < MaxId
 (* the loop of borrow_connection run to its end: take under conn.lock; a      *)
@@ -317,7 +331,7 @@ ShutdownCloseTrash ==
     /\ UNCHANGED <<orph, thr, cur, replacing, shutdown, rep, opened, fails, cfails, on>>
 
 Next ==
-    \/ \E r \in Reqs : BorrowStart(r) \/ BorrowTake(r) \/ Timeout(r)
+    \/ \E r \in Reqs : BorrowStart(r) \/ BorrowMark(r) \/ BorrowTake(r) \/ Timeout(r)
     \/ \E r \in Reqs, d \in BOOLEAN : Send(r, d)
     \/ \E c \in Conns, q \in Reqs : Respond(c, q)
     \/ \E c \in Conns, d \in BOOLEAN : ConnFails(c, d)
@@ -344,7 +358,7 @@ Accounting ==
         inflight[c] = Cardinality({r \in Reqs : on[r] = c /\ st[r] \in {"borrowed", "sent"}}) + Cardinality(orph[c])
 
 Quiescent == /\ sd = "done" /\ rep.ph = "none"
-             /\ \A r \in Reqs : st[r] \notin {"picked", "borrowed", "sent"}
+             /\ \A r \in Reqs : st[r] \notin {"marking", "picked", "borrowed", "sent"}
 AllClosed == Quiescent => \A c \in 1..opened : closed[c]       \* everything ever opened is closed
 NoCurAfterShutdown == sd = "done" => cur = 0 /\ trash = {}
 
@@ -355,7 +369,7 @@ NoAbandon ==      \* closed only when defunct, at shutdown, or with nobody waiti
             => /\ Using(c, st) \ {act'.r} = {}
                /\ \A r \in Reqs : on[r] = c => st'[r] # "errored"]_vars
 NewBorrowsUseCurrent ==
-    [][\A r \in Reqs : /\ (st[r] = "new" /\ st'[r] = "picked") => on'[r] = cur /\ cur \notin trash
+    [][\A r \in Reqs : /\ (st[r] = "new" /\ st'[r] \in {"marking", "picked"}) => on'[r] = cur /\ cur \notin trash
                        /\ (st[r] = "picked" /\ st'[r] = "borrowed") => on'[r] \in {on[r], cur}]_vars
 PublishedIsCurrent == [][act'.name = "ReplacePublish" /\ ~shutdown => cur' = rep.new /\ ~closed'[cur']]_vars
 TrashDrains ==    \* a trashed connection with only orphaned streams left does not stay open
@@ -383,5 +397,6 @@ Witness_FailedOldWhileCurrentHealthy ==
 Witness_Repick == ~(act.name = "BorrowTake" /\ st[act.r] = "borrowed" /\ on[act.r] # act.c)
 Witness_InlineShutdown == ~(act.name \in {"ConnFails", "Send"} /\ act.f /\ sd = "done" /\ opened >= 2)
 Witness_QuiescentAllClosed == ~(Quiescent /\ opened >= 2)
+Witness_MarkAfterReplacement == ~(act.name = "BorrowMark" /\ on[act.r] # cur /\ cur # 0 /\ ~replacing /\ ~shutdown)
 Witness_ShutdownDuringUse == ~(Ks /\ act.name = "ReplacePublish" /\ shutdown /\ sd = "done")
 =============================================================================
